@@ -3,6 +3,7 @@ decision prefix), calls by contract, loops by invariant, effect traces.  See DES
 from __future__ import annotations
 
 import ast
+import os
 import time as _time
 
 import z3
@@ -12,6 +13,7 @@ from .values import *  # noqa
 from .values import BYTES, BV8, builtin_exc_ancestors, canon_exc
 from . import smt
 
+RECHECK = os.environ.get("VERIF_TIER") == "thorough"
 UNROLL_LIMIT = 600
 MAX_DEPTH = 60
 
@@ -111,6 +113,7 @@ class Interp:
         self._module_ns = {}
         self._loop_ord_cache = {}
         self.path_errors = []
+        self.recheck = {}
         self._fparts = {}
         self.sym_ext = {}
         self.begin_path([])
@@ -336,6 +339,13 @@ class Interp:
             model = self._model_of(self.solver.model())
         elif r == z3.unsat:
             status = "discharged"
+            if RECHECK:
+                # thorough tier: second solver on every discharged VC
+                rc = smt.recheck_unsat(self.solver)
+                self.recheck[rc] = self.recheck.get(rc, 0) + 1
+                backend = {"agree": "z3+cvc5", "unknown": "z3 (cvc5: unknown)", "DISAGREE": "z3-unsat/cvc5-SAT"}[rc]
+                if rc == "DISAGREE":
+                    status = "undecided"
         else:
             status, backend, model = smt.second_opinion(self.solver, self.inputs)
         ftxt = None
